@@ -23,7 +23,13 @@ def helper_table(f):
         for cy in ("nan", "num"):
             orders = ("lt", "eq", "gt") if (cx, cy) == ("num", "num") else ("na",)
             for o in orders:
+                local_defs = {}
+
                 def ev(e):
+                    if isinstance(e, ast.Name) and e.id in local_defs:
+                        return ev(local_defs[e.id])              # a flag such as `xmissing = math.isnan(x)`
+                    if isinstance(e, ast.Call) and isinstance(e.func, ast.Name) and e.func.id == "bool" and len(e.args) == 1:
+                        return ev(e.args[0])
                     if isinstance(e, ast.BoolOp):
                         vals = [ev(v) for v in e.values]
                         if isinstance(e.op, ast.And):
@@ -51,8 +57,20 @@ def helper_table(f):
                 while steps < 200:
                     steps += 1
                     node = g.nodes[nid]
+                    if node.kind == "stmt" and isinstance(node.ast, ast.Assign) and len(node.ast.targets) == 1 and isinstance(node.ast.targets[0], ast.Name) \
+                            and node.ast.targets[0].id not in (x, y):
+                        local_defs[node.ast.targets[0].id] = node.ast.value
                     if node.kind == "stmt" and isinstance(node.ast, ast.Return):
                         v = node.ast.value
+                        hops = 0
+                        while isinstance(v, ast.IfExp) and hops < 5:
+                            t = ev(v.test)
+                            if t is None:
+                                break
+                            v = v.body if t else v.orelse
+                            hops += 1
+                        if isinstance(v, ast.Name) and v.id in local_defs and isinstance(local_defs[v.id], ast.Call) and call_name(local_defs[v.id]) == "float":
+                            v = local_defs[v.id]
                         if isinstance(v, ast.Name) and v.id in (x, y):
                             res = "x" if v.id == x else "y"
                         elif isinstance(v, ast.Call) and call_name(v) == "float":
